@@ -267,7 +267,7 @@ def c08SoftDeleted : State :=
     the documented precondition panic — is answered Accepted on the spot and makes the expired value 10 readable
     again (revival that bypasses admission). -/
 theorem C08_counterexample_expired :
-    runEvents (State.init c08Cfg 3000000000 [1, 2, 3, 4])
+    runEvents_Upsert (State.init c08Cfg 3000000000 [1, 2, 3, 4])
       [.putWTtl 0 1 10 5 1000000000, .worker, .advance 2000000000] = .ok c08Expired ∧
     c08Expired.shutting = false ∧
     (∀ o, readKey c08Expired 1 o =
@@ -290,7 +290,7 @@ theorem C08_counterexample_expired :
     accepted and silently lost. A TTL-only upsert is even answered Accepted on the spot, and the key still reads as
     absent. -/
 theorem C08_counterexample_soft_deleted :
-    runEvents (State.init c08Cfg 3000000000 [1, 2, 3, 4])
+    runEvents_Upsert (State.init c08Cfg 3000000000 [1, 2, 3, 4])
       [.putWTtl 0 1 10 5 1000000000, .worker, .delete 0 1] = .ok c08SoftDeleted ∧
     c08SoftDeleted.shutting = false ∧
     (∀ o, readKey c08SoftDeleted 1 o =
@@ -324,7 +324,7 @@ example : c08Live.shutting = false ∧
     inI64 (7 - 29) = true ∧ inI64 (c08Live.adm.used + (7 - 29)) = true := by decide
 
 /-- the state is the one reached by the put of the counterexamples (with weight 29 = 5 + the TTL surcharge) -/
-example : ∃ s, runEvents (State.init c08Cfg 3000000000 [1, 2, 3, 4]) [.putWTtl 0 1 10 29 1000000000, .worker] = .ok s ∧
+example : ∃ s, runEvents_Upsert (State.init c08Cfg 3000000000 [1, 2, 3, 4]) [.putWTtl 0 1 10 29 1000000000, .worker] = .ok s ∧
     s.store = c08Live.store ∧ s.ttl = c08Live.ttl ∧ s.adm.kw = c08Live.adm.kw ∧ s.adm.used = c08Live.adm.used ∧
     s.acks = c08Live.acks ∧ s.nextId = c08Live.nextId := ⟨_, rfl, rfl, rfl, rfl, rfl, rfl, rfl⟩
 
